@@ -178,6 +178,11 @@ def plan(chk):
     return specs
 
 
+def _dispatch(spec):
+    from .. import longrun
+    return longrun.long_case(spec) if spec.get("case") == "long" else case(spec)
+
+
 def main():
     chk = core.Check("C08")
     core.build("release")
@@ -187,11 +192,14 @@ def main():
     for sp in specs:
         sp["work"] = chk.workdir
     specs.sort(key=lambda s: -(10 ** 7 if s["kind"] == "wide" else (10 ** s.get("k", 0) if s["kind"] == "lanes" else s.get("events", 0))))
-    for res in core.parallel(case, specs, jobs=min(core.NPROC, 12)):
+    from ..chain import COIN_NAMES
+    specs.insert(0, dict(case="long", callback="balances", coin=COIN_NAMES[(chk.seed + 2) % 8], seed=chk.seed, n=0, blocks=(140000 if chk.thorough else 70000), verify=False, work=chk.workdir))
+    for res in core.parallel(_dispatch, specs, jobs=min(core.NPROC, 12)):
         chk.absorb(res)
     chk.finish(RULE, floor={"runs": 200, "relation_checks": 100, "balances_above_2^32": 5, "balances_above_2^63": 1, "addresses_with_several_outputs": 100},
                assumptions=["per-address sums stay below 2^64 (not representable otherwise)", "UTXO semantics as in C07"])
 
 
 def replay(spec):
-    core.replay_case("C08", {"case": case}, spec)
+    from .. import longrun
+    core.replay_case("C08", {"case": case, "long": longrun.long_case}, spec)
